@@ -110,6 +110,12 @@ def run_case(ctx, case):
         gone = [r_ for r_ in gone if not (r_ == 'test_other.py' and False)]
         if gone:
             rec.violation('pre_existing_file_lost_when_test_runs', {'case': case, 'mech': mech, 'facts': {'files': gone}})
+    if case.get('linked_store'):
+        rec.event('fs:linked_directory_checked')
+        sp = os.path.join(g.root, 'store', 'lookup.csv')
+        if not os.path.exists(sp) or open(sp).read() != 'k,v\n1,one\n':
+            rec.violation('pre_existing_file_lost_when_test_runs', {'case': case, 'mech': dict(mech, through='linked directory'),
+                                                                    'facts': {'files': ['linked/lookup.csv'], 'exists': os.path.exists(sp)}})
     if res.status != 0 or res.failed or not res.n_tests:
         rec.violation('generated_test_does_not_pass', {
             'case': case, 'mech': {'failed': res.failed, 'status': res.status,
